@@ -425,6 +425,31 @@ example : parse edmontonDb "2014-11-02 00:59:59.999 America/Edmonton".toList = .
 example : parse edmontonDb "2014-03-09 02:30:00 America/Edmonton".toList = .error .nonexistent := by
   decide +kernel
 
+/-- the daylight-saving designated form: both instants 01:59:59.5 of the repeated hour parse back
+to themselves (`MDT` ↦ is_dst, `MST` ↦ not), as `designated_roundtrip` states -/
+def edmontonAbbrevDb : TzDb :=
+  { zones := [edmonton], abbrevs := [("MDT".toList, edmonton.name, some true), ("MST".toList, edmonton.name, some false)] }
+
+example : render 3 1414915199500000 0 (some edmonton) .dflt = some "2014-11-02 01:59:59.500 MDT".toList := by
+  decide +kernel
+example : parse edmontonAbbrevDb "2014-11-02 01:59:59.500 MDT".toList = .ok 1414915199500000 := by decide +kernel
+example : parse edmontonAbbrevDb "2014-11-02 01:59:59.500 MST".toList = .ok 1414918799500000 := by decide +kernel
+example : ZoneWord "MDT".toList := ⟨by decide, 'M', _, rfl, by decide⟩
+example : edmontonAbbrevDb.info "MDT".toList = .ok (edmonton, some true) := by decide
+
+/-- comparison: 1.001 ms apart is `<`, exactly 1 ms apart is `==`; the renderings agree -/
+example : tsLt {} 1399326141000000 1399326141001001 = true ∧ tsLt {} 1399326141000000 1399326141001000 = false ∧
+    tsEq {} 1399326141000000 1399326141001000 = true := by decide
+example : ({} : CmpCfg).WF := by decide
+example : render 3 1399326141000400 0 none .dflt = some "2014-05-05 21:42:21.000".toList ∧
+    render 3 1399326141000499 1 none .dflt = some "2014-05-05 21:42:21.000".toList := by
+  constructor <;> decide +kernel
+example : "2014-05-05 21:42:21.000".toList < "2014-05-05 21:42:21.001".toList := by decide
+/-- a tie at the third digit goes where the float's representation error points, and to the even
+millisecond when the float is exact -/
+example : roundTo 3 62500 0 = 62000 ∧ roundTo 3 62500 1 = 63000 ∧ roundTo 3 187500 0 = 188000 ∧
+    roundTo 3 (-62500) 0 = -62000 ∧ roundTo 3 (-500) (-1) = -1000 := by decide
+
 /-- **Witness 1 (code before the fix).**  For instants before 1970 with a sub-second part the
 fraction digits were taken from the text of the negative float: -0.25 s was rendered as
 `23:59:59.250`, which parses to -0.75 s — a different instant.  (`renderOld` is that code.) -/
